@@ -24,7 +24,9 @@ corr (d) : the Lean emission skeleton of codegen's visit*/write_* methods (Print
 oracle   : (no Lean)
            traceback        - hand-written witnesses (one per emission site, alternating templates, exotic line
                               boundaries) and generated template sets with ONE raising expression / statement
-                              planted at every candidate position, one at a time, x four construction paths;
+                              planted at every candidate position, one at a time, x four construction paths
+                              (+ relative / un-normalised module_directory, modulename_callable absolute / relative);
+                              which frames are template frames is told by the frame's own module globals;
                               RichTraceback records (file, line, source text, attached source), .lineno/.source,
                               text_error_template, html_error_template, format_exceptions=True, plain frames;
            warnings         - warning-triggering literals x positions x paths x filter actions;
@@ -60,7 +62,9 @@ RULE = ("corr(a): random emission sequences over {start_source, writeline (incl.
         "buffered / cached / raising default; named and anonymous <%block>; <%call> and <%self:def> with body and "
         "args; <%include> with args; <%namespace file>; <%inherit>; <%text filter>; <%page>; strict_undefined) with "
         "one fault slot active per case; every slot of every generated set is visited; x {string, file, lookup, "
-        "module-directory}; a set whose benign form does not render is discarded (counted). "
+        "module-directory} and three more spellings of the module-file route: module_directory relative to the working "
+        "directory (plain / un-normalised, run inside the temp directory), module_filename through modulename_callable "
+        "absolute / relative; a set whose benign form does not render is discarded (counted). "
         "corr(c): random (registered?, lineno, full map, template lines), record sequences over {A,B,C,plain}, "
         "warning sequences over {phase} x {file} x {text} x {always, once, error, ignore}, the four "
         "(module file up to date?, accepted?) situations. "
@@ -1215,6 +1219,9 @@ def witness_sets():
 # oracle: tracebacks
 
 PATHS = ["string", "file", "lookup", "moddir"]
+# the module-file routes once more: module_directory spelled relative to the working directory (plain and
+# un-normalised), and module_filename via TemplateLookup(modulename_callable=...) absolute and relative
+EXTRA_PATHS = ["moddir-rel", "modfile-abs", "modfile-rel"]
 
 
 class Env:
@@ -1223,6 +1230,14 @@ class Env:
     def __init__(self, root):
         self.root = root
         self.n = 0
+        self.home = os.getcwd()
+
+    def restore(self):
+        """paths relative to the working directory are resolved when a template is constructed - also the
+        templates an <%include> constructs while rendering: a case with a relative module location runs
+        inside its temp directory; this brings the process back"""
+        if os.getcwd() != self.home:
+            os.chdir(self.home)
 
     def build(self, ts, active, path, format_exceptions=False):
         from mako.template import Template
@@ -1259,6 +1274,21 @@ class Env:
             return lk.get_template(ts.uri(ts.main)), names, texts
         if path == "moddir":
             lk = TemplateLookup(directories=[d], module_directory=os.path.join(d, "mods"), **opts)
+            return lk.get_template(ts.uri(ts.main)), names, texts
+        if path == "moddir-rel":
+            os.chdir(d)
+            os.makedirs(os.path.join(d, "sub"), exist_ok=True)
+            spelling = "mods_rel" if self.n % 2 else "./sub/../mods_rel"
+            lk = TemplateLookup(directories=[d], module_directory=spelling, **opts)
+            return lk.get_template(ts.uri(ts.main)), names, texts
+        if path in ("modfile-abs", "modfile-rel"):
+            base = os.path.join(d, "mc") if path == "modfile-abs" else "mc"
+            if path == "modfile-rel":
+                os.chdir(d)
+
+            def modname(filename, uri, _base=base):
+                return os.path.join(_base, re.sub(r"\W", "_", uri) + ".py")
+            lk = TemplateLookup(directories=[d], modulename_callable=modname, **opts)
             return lk.get_template(ts.uri(ts.main)), names, texts
         raise ValueError(path)
 
@@ -1350,6 +1380,13 @@ def expected_frames(ts, slot, names, texts):
 def check_traceback(ts, slot, path, env, views=("records", "text", "html", "format_exceptions")):
     """render the set with `slot` active on `path`; returns a list of problems
     (site, detail dict) - empty when every view reports every frame as the ground truth says"""
+    try:
+        return _check_traceback(ts, slot, path, env, views)
+    finally:
+        env.restore()
+
+
+def _check_traceback(ts, slot, path, env, views):
     from mako import exceptions
     import mako.template as MT
     problems = []
@@ -1367,12 +1404,20 @@ def check_traceback(ts, slot, path, env, views=("records", "text", "html", "form
             return [("richtraceback-raised", {"error": repr(e)})], None
         text_out = exceptions.text_error_template().render_unicode() if "text" in views else None
         html_out = exceptions.html_error_template().render_unicode(full=False, css=False) if "html" in views else None
-        registered = [fr.filename in MT.ModuleInfo._modules for fr in raw]
+        # which frames run code of a generated template module - told by the module's own globals, not by
+        # mako's registry
+        registered = []
+        tbi = tb
+        while tbi is not None:
+            g = tbi.tb_frame.f_globals
+            registered.append("_magic_number" in g and "_template_uri" in g and "render_body" in g)
+            tbi = tbi.tb_next
     recs = rt.records
     got_t = []
     for r, fr, reg in zip(recs, raw, registered):
         if reg != (r[4] is not None):
-            problems.append(("frame-classification", {"file": fr.filename, "registered": reg}))
+            problems.append(("template-frame-reported-as-python-frame" if reg else "python-frame-reported-as-template-frame",
+                             {"file": os.path.basename(fr.filename), "line": fr.lineno, "path": path}))
         if r[4] is None:
             if (r[0], r[1], r[2], r[3]) != (fr.filename, fr.lineno, fr.name, fr.line or "") or any(x is not None for x in r[4:8]):
                 problems.append(("plain-frame-changed", {"raw": list(fr), "record": list(r[:4])}))
@@ -1391,6 +1436,8 @@ def check_traceback(ts, slot, path, env, views=("records", "text", "html", "form
         problems.append(("record-count", {"records": len(recs), "raw": len(raw)}))
     summary = {"expected": [(e[0] if False else os.path.basename(str(e[0])), e[1], e[3]) for e in exp],
                "got": [(os.path.basename(str(g[0])), g[1], g[3], g[4][:60]) for g in got_t]}
+    if any(p[0].endswith("-frame") for p in problems):
+        return problems, summary            # the other comparisons presuppose the classification
     if len(got_t) != len(exp):
         problems.append(("harness:frame-count", summary))
         return problems, summary
@@ -1486,6 +1533,8 @@ def benign_ok(ts, path, env):
         return True
     except Exception:
         return False
+    finally:
+        env.restore()
 
 
 def case_of(ts, slot, path, extra=None):
@@ -1544,7 +1593,14 @@ def oracle_tb(ctx, env):
     discarded = 0
     for i, (name, ts) in enumerate(sets):
         hand = not name.startswith("gen")
-        ok_paths = [p for p in PATHS if (hand or p == PATHS[i % 4] or not ctx.quick) and benign_ok(ts, p, env)]
+        allp = PATHS + EXTRA_PATHS
+        if hand:
+            cand = allp
+        elif ctx.quick:
+            cand = [allp[i % len(allp)]]
+        else:
+            cand = PATHS + [EXTRA_PATHS[i % len(EXTRA_PATHS)]]
+        ok_paths = [p for p in cand if benign_ok(ts, p, env)]
         if not ok_paths:
             discarded += 1
             ctx.branch("oracle:set-discarded(benign version raises)")
@@ -1678,6 +1734,8 @@ def run_warning_case(case, path, action, env):
                 t.render_unicode()
         except Exception as e:
             raised = e
+        finally:
+            env.restore()
     shown = [(w.filename, w.lineno) for w in rec if msgsub in str(w.message)]
     if names is None:
         # construction failed before the names were returned: recompute them
@@ -1739,8 +1797,10 @@ def oracle_warn(ctx, env):
     for rd in range(rounds):
         for case in warning_cases(ctx.rng):
             stage = LITERALS[case["literal"]][2] if case["literal"] else "exec"
-            for path in PATHS:
+            for path in PATHS + EXTRA_PATHS:
                 for action in ("always", "once", "error"):
+                    if path in EXTRA_PATHS and case["name"].startswith("attr:"):
+                        continue
                     if ctx.quick and (zlib.crc32(repr((case["name"], path, action, rd)).encode()) % 2) and case["name"].startswith("attr:"):
                         continue
                     try:
@@ -1787,6 +1847,8 @@ def oracle_warn(ctx, env):
                         col.add("warning:not-shown:" + case["site"], size, cd, {"shown": []})
                     elif len(shown) > 1:
                         col.add("warning:shown-more-than-once:%s" % case["site"], size, cd, {"shown": shown})
+                    elif shown[0][0] != want_file and shown[0][0].endswith(".py"):
+                        col.add("warning:shown-against-module-file", size, cd, {"shown": shown, "want": [want_file, line]})
                     elif shown[0][0] != want_file:
                         col.add("warning:filename:" + case["site"], size, cd, {"shown": shown, "want": want_file})
                     else:
